@@ -78,8 +78,15 @@ Definition show_r (c : r_case) :=
    has_contest (r_card c) (r_con c), has_one_vote (r_card c) (r_con c) (r_cands c)).
 
 (* ---------- Contest.tally and CVR.tabulate_votes ---------- *)
-Definition pair_eqb (a b : Z * Z) : bool := (fst a =? fst b)%Z && (snd a =? snd b)%Z.
-Definition dict_eqb (a b : list (Z * Z)) : bool := all2 pair_eqb a b.    (* insertion order included *)
+(* counting dicts are compared as functions with default 0 (they are defaultdict(int)): key order and the
+   presence of zero-valued keys are not part of the property *)
+Definition get0 (k : Z) (l : list (Z * Z)) : Z := match assoc k l with Some v => v | None => 0%Z end.
+Definition dict_eqb (a b : list (Z * Z)) : bool :=
+  forallb (fun kv : Z * Z => (get0 (fst kv) a =? snd kv)%Z) b && forallb (fun kv : Z * Z => (get0 (fst kv) b =? snd kv)%Z) a.
+Definition getd (k : Z) (l : list (Z * list (Z * Z))) : list (Z * Z) := match assoc k l with Some v => v | None => [] end.
+Definition dict2_eqb (a b : list (Z * list (Z * Z))) : bool :=
+  forallb (fun kv : Z * list (Z * Z) => dict_eqb (getd (fst kv) a) (snd kv)) b
+  && forallb (fun kv : Z * list (Z * Z) => dict_eqb (getd (fst kv) b) (snd kv)) a.
 Record t_case := mkt {
   t_con : contest_id; t_enforce : bool; t_nw : Z; t_cards : list card;
   t_tally : list (Z * Z);                      (* dict(contest.tally) after Contest.tally(...) *)
@@ -88,8 +95,7 @@ Definition agree_t (c : t_case) : bool :=
   dict_eqb (tally_contest (t_enforce c) (t_nw c) (t_con c) (t_cards c)) (t_tally c)
   && match t_tab c with
      | None => true
-     | Some tb => all2 (fun a b : Z * list (Z * Z) => (fst a =? fst b)%Z && dict_eqb (snd a) (snd b))
-                       (tabulate_votes (t_cards c)) tb
+     | Some tb => dict2_eqb (tabulate_votes (t_cards c)) tb
      end.
 Definition show_t (c : t_case) :=
   (tally_contest (t_enforce c) (t_nw c) (t_con c) (t_cards c), tabulate_votes (t_cards c)).
